@@ -164,7 +164,7 @@ func (x *walFaultRun) engineOn(newest []byte) string {
 		return "manifesterr"
 	}
 	x.writeDir(filepath.Join(d, "wal"), newest)
-	return recoverAndProbe(d)
+	return recoverAndProbe(d, false)
 }
 
 func (x *walFaultRun) step(ws []string) (out string) {
